@@ -2327,7 +2327,7 @@ fn shrink_expr(e: &Expr, out: &mut Vec<Expr>) {
         Expr::Int(n) => {
             if *n != 0 {
                 out.push(Expr::Int(0));
-                if n.abs() > 1 {
+                if n.unsigned_abs() > 1 {
                     out.push(Expr::Int(n / 2));
                     out.push(Expr::Int(if *n > 0 { 1 } else { -1 }));
                 }
@@ -2469,7 +2469,13 @@ fn shrink_expr(e: &Expr, out: &mut Vec<Expr>) {
 }
 
 /// programs one shrinking step away from `p` (may be ill-typed: callers discard rejected ones)
+/// candidates of `shrink_candidates_raw`; a panic in the shrinker itself never takes the harness down (the failing
+/// program is then reported unshrunk)
 pub fn shrink_candidates(p: &Program) -> Vec<Program> {
+    std::panic::catch_unwind(std::panic::AssertUnwindSafe(|| shrink_candidates_raw(p))).unwrap_or_default()
+}
+
+fn shrink_candidates_raw(p: &Program) -> Vec<Program> {
     let mut out = vec![];
     let mut mains = vec![];
     shrink_stmts(&p.main, &mut mains);
@@ -2747,7 +2753,10 @@ pub mod run {
             Ok(Err(e)) => return Real { answer: "rejected".into(), accepted: false, detail: e.to_string() },
             Ok(Ok(p)) => p,
         };
-        let mut rt = Runtime::new(prog);
+        let mut rt = match catch_unwind(AssertUnwindSafe(|| Runtime::new(prog))) {
+            Ok(rt) => rt,
+            Err(p) => return Real { answer: format!("crash run {}", one_line(&panic_msg(p))), accepted: true, detail: String::new() },
+        };
         let mut out = String::new();
         let opts = RunOpts { budgets: budgets.to_vec(), max_steps, files: vec![] };
         let r = catch_unwind(AssertUnwindSafe(|| drive(&mut rt, &opts, &mut out)));
